@@ -31,10 +31,12 @@ type overlapCase struct {
 }
 
 type overlapOpts struct {
-	Gen      kit.GenOpts
-	BKinds   []string // kinds of operation B may be: close, close-ancestor, pclose, cancel, same-get, get, create
-	AKinds   []string // get, create, create-gatectx
-	GateKind []int
+	Gen       kit.GenOpts
+	BKinds    []string // kinds of operation B may be: close, close-ancestor, pclose, cancel, same-get, get, create
+	AKinds    []string // get, create, create-gatectx
+	GateKind  []int
+	ExtraWarm int                        // more warm-up resolutions (so that scopes own instances)
+	Prep      func(*kit.World, *rapid.T) // prepare the world before Build (fault plans)
 }
 
 func obsOfKind(r *kit.Runner, from int, kind string) *kit.Obs {
@@ -48,7 +50,11 @@ func obsOfKind(r *kit.Runner, from int, kind string) *kit.Obs {
 
 func genOverlap(rt *rapid.T, oo overlapOpts) *overlapCase {
 	cfg := kit.GenConfig(rt, oo.Gen)
-	x, err := startRun(cfg, nil)
+	x, err := startRunWith(cfg, nil, func(w *kit.World) {
+		if oo.Prep != nil {
+			oo.Prep(w, rt)
+		}
+	})
 	if err != nil {
 		rt.Fatal(err)
 	}
@@ -68,7 +74,7 @@ func genOverlap(rt *rapid.T, oo overlapOpts) *overlapCase {
 	if len(ids) == 0 {
 		return c
 	}
-	for i := rapid.IntRange(0, 2).Draw(rt, "warm"); i > 0; i-- {
+	for i := rapid.IntRange(0, 2+oo.ExtraWarm).Draw(rt, "warm"); i > 0; i-- {
 		x.exec(Op{Kind: "get", Scope: rapid.SampledFrom(x.R.LiveScopes()).Draw(rt, "wtag"), Ident: rapid.SampledFrom(ids).Draw(rt, "wid")})
 	}
 	live := x.R.LiveScopes()
@@ -113,6 +119,11 @@ func genOverlap(rt *rapid.T, oo overlapOpts) *overlapCase {
 		c.A = Op{Kind: "create", Scope: atag, Ctx: rapid.SampledFrom([]int{0, 1, 2}).Draw(rt, "actx")}
 	case "create-gatectx":
 		c.A = Op{Kind: "create", Scope: atag, Ctx: 10}
+	case "close":
+		if atag == 0 {
+			return c
+		}
+		c.A = Op{Kind: "close", Scope: atag}
 	}
 	c.GateKind = rapid.SampledFrom(oo.GateKind).Draw(rt, "gatekind")
 	if c.A.Ctx == 10 {
@@ -356,5 +367,56 @@ func TestC13Schedules(t *testing.T) {
 		"controlled two-thread programs: thread A issues Get*/CreateScope and is parked at the n-th constructor entry/exit it reaches (initializers included) or inside ctx.Done() of the context handed to CreateScope; thread B runs one Close (A's scope, an ancestor, the provider) or a context cancellation to completion; A is released; oracle: no panic, no hang (20 s), A returns fully constructed values or an error satisfying errors.Is(ErrScopeDisposed/ErrProviderDisposed); non-trivial = A was parked",
 		oo,
 		func(c *overlapCase) *Failure { return c.checkOverlapResults("C13") },
+		func(c *overlapCase) bool { return true })
+}
+
+// ---- C11 / C12: a Close parked inside an instance's Close() while an ancestor is closed ----
+
+func closeOverlapOpts() overlapOpts {
+	return overlapOpts{Gen: dispOpts(), AKinds: []string{"close"}, BKinds: []string{"close-ancestor", "close-ancestor", "pclose", "cancel"},
+		GateKind: []int{kit.GateCloseEnter}, ExtraWarm: 5,
+		Prep: func(w *kit.World, rt *rapid.T) {
+			regs := map[int]bool{}
+			for _, r := range w.Cfg.Regs {
+				if r.Form != kit.FormInstance && rapid.IntRange(0, 3).Draw(rt, "closefails") == 0 { // instance values are outside the statement
+					regs[r.ID] = true
+				}
+			}
+			w.CloseFailRegs = regs
+		}}
+}
+
+func TestC11Schedules(t *testing.T) {
+	runOverlapTest(t, "C11", "controlled-schedules",
+		"controlled two-thread programs: thread A closes a scope and is parked inside the Close() method of the n-th instance it disposes; thread B then closes an ancestor scope or the provider (or cancels an ancestor's context) and runs until it returns or blocks; A is released; oracle = C11 stamp oracle over the whole run (reverse creation order per owner, every close in a descendant before the ancestor's own instances, scopes before singletons) and no hang; non-trivial = A was parked inside a Close()",
+		closeOverlapOpts(),
+		func(c *overlapCase) *Failure {
+			if f := c.checkOverlapResults("C11"); f != nil && (f.Oracle == "no-hang" || f.Oracle == "no-panic") {
+				return f
+			}
+			return c.X.checkC11()
+		},
+		func(c *overlapCase) bool { return true })
+}
+
+func TestC12Schedules(t *testing.T) {
+	runOverlapTest(t, "C12", "controlled-schedules",
+		"same programs as the C11 schedules, with every instance of a generated subset of registrations failing in Close(): the Close of a scope is parked inside an instance's Close() while an ancestor or the provider is closed; oracle = C12 per-call oracle (everything in the subtree closed exactly once when a call returns, a call returns a DisposalError iff a failing Close of its subtree ran during it, nothing closed twice) and no hang; non-trivial = A was parked inside a Close()",
+		closeOverlapOpts(),
+		func(c *overlapCase) *Failure {
+			if f := c.checkOverlapResults("C12"); f != nil && (f.Oracle == "no-hang" || f.Oracle == "no-panic") {
+				return f
+			}
+			failing := map[int]bool{}
+			for _, e := range c.X.W.AllEntries() {
+				if c.X.W.CloseFailRegs[e.Reg] {
+					failing[e.Serial] = true
+				}
+			}
+			if f := c.X.checkC12(failing); f != nil {
+				return f
+			}
+			return c.X.checkC10(true)
+		},
 		func(c *overlapCase) bool { return true })
 }
